@@ -17,6 +17,7 @@ import CueVerif.Proofs.ModzipAgree
 import CueVerif.Proofs.ModzipTotal
 import CueVerif.Proofs.ModzipDir
 import CueVerif.Proofs.ModzipEsc
+import CueVerif.Proofs.ModzipJoin
 namespace CueVerif.C15
 open CueVerif CueVerif.Modzip
 
@@ -39,6 +40,39 @@ theorem C15_accepted_clean (U : Uni) (p : Str) (h : checkFilePath U p = none) :
 example : checkFilePath ⟨fun r => r == 233, id⟩ [99,117,101,46,109,111,100,47,195,169,32,40,49,41,46,99,117,101] = none := by decide
 example : checkFilePath ⟨fun _ => false, id⟩ [46,46,47,120] = some .dots := by decide
 example : checkFilePath ⟨fun _ => false, id⟩ [97,92,46,46,92,120] = some .invalidChar := by decide
+
+/-- Confinement at byte level, for the join Unzip performs (`filepath.Join(dir, name)` after
+CheckFilePath): for a clean absolute `dir` = `/d1/…/dn` and an accepted `name` the result is
+literally `dir ++ "/" ++ name` — Clean removes nothing and resolves no `..` — its elements are
+those of `dir` followed by those of `name` (the `fjoin` of `C15_confined`), and every element
+of `name` obeys the Windows rules the code applies on every OS (`WinSafeElem`: not empty, not
+dots only, no trailing dot, none of the bytes `\ / : * ? " < > |`, quotes, `;`, backquote, DEL
+or control characters — hence no drive letter, UNC prefix or alternate data stream — and the
+part before the first dot is no reserved device name in any case). -/
+theorem C15_confined_bytes (U : Uni) (ds : List Str) (hds : ds ≠ [])
+    (hd : ∀ e ∈ ds, e ≠ [] ∧ e ≠ sDot ∧ e ≠ sDotDot ∧ 47 ∉ e)
+    (p : Str) (hp : checkFilePath U p = none) :
+    fpJoin (47 :: joinSlash ds) p = (47 :: joinSlash ds) ++ 47 :: p ∧
+    splitOn 47 (fpJoin (47 :: joinSlash ds) p) = [] :: fjoin ds p ∧
+    ∀ e ∈ splitOn 47 p, WinSafeElem U e :=
+  ⟨(fpJoin_accepted U ds hds hd p hp).1, (fpJoin_accepted U ds hds hd p hp).2,
+   checkFilePath_winSafe U p hp⟩
+
+example : fpJoin [47,84] [99,117,101,46,109,111,100,47,120] = [47,84,47,99,117,101,46,109,111,100,47,120] := by decide
+-- what Join would do to a hostile name (a test): `..` climbs out — such names never reach Join
+example : fpJoin [47,84] [46,46,47,120] = [47,120] := by decide
+
+/-- What the Windows rules of the code do NOT give: an element may end in a space (`.. `,
+`a `, `CON .txt` are accepted; only a trailing DOT is rejected).  Replayed on the implementation
+by the harness; outside the C15 statement (not observable on this host), for maintainers. -/
+def C15_no_trailing_space_stmt : Prop :=
+  ∀ (U : Uni) (p : Str), checkFilePath U p = none → ∀ e ∈ splitOn 47 p, e.getLast? ≠ some 32
+
+theorem C15_no_trailing_space_false : ¬ C15_no_trailing_space_stmt := by
+  intro h
+  have := h ⟨fun _ => false, id⟩ [46,46,32] (by decide) [46,46,32] (by decide)
+  revert this
+  decide
 
 /-! ### extraction: ANY archive, ANY outcome -/
 
